@@ -77,7 +77,7 @@ def jobs(tier, seed):
             add(kern, wiring, True, "1", 2, 1, cost=1)
     n3 = []     # n=3 costs minutes per configuration (thousands of paths per start state): thorough tier only
     if tier == "thorough":
-        n3 = [(k, w, o, t) for k in PROPOSALS for w in ("library", "run") for o in (False, True) for t in ("0", "3/4", "1")]
+        n3 = [(k, w, False, t) for k in PROPOSALS for w in ("library", "run") for t in ("0", "1")]
     for kern, wiring, outl, thr in n3:
         for sname, pref in SLICES3.items():
             if tier == "quick" and sname != "point0+alpha":
@@ -89,8 +89,6 @@ def jobs(tier, seed):
             for wiring in ("library", "run"):
                 add(kern, wiring, False, "1/2", 3, 2, cost=200)
                 add(kern, wiring, False, "1/2", 2, 2, G=3, cost=50)
-                add(kern, wiring, True, "1", 2, 2, cost=300, fixed=slice_fixed(("x", "alpha"), 2, 2, True), slice="data+alpha", inv_timeout=600)
-                out[-1]["name"] += "-slice:data+alpha"
     for cname, kern, wiring, thr, outl in (("weight_omits_log_q", "fully", "library", "0", False), ("last_step_correction_dropped", "bootstrap", "library", "0", False),
                                            ("retained_weight_from_wrong_slot", "bootstrap", "library", "0", True), ("final_selection_uniform", "fully", "run", "0", False),
                                            ("run_wiring_without_perm_dist", "semi", "run", "0", False)):
